@@ -325,10 +325,72 @@ def interpreter_limits(G, ctx):
         ctx.count("interpreter-limit")
 
 
+def library_functions(G, ctx):
+    """Deterministic functions built from JAX LIBRARY functions that carry their own derivative rules or wrap a sub-jaxpr
+    (jax.nn.relu / relu6 / softplus / softmax / logsumexp, jax.checkpoint, user custom_jvp with a hand-written rule, user custom_vjp):
+    these reach the ADEV interpreter as custom_jvp_call / custom_vjp_call / remat equations, for which JAX has no per-primitive JVP rule.
+    jvp_estimate vs jax.jvp, grad_estimate vs jax.grad, estimate vs the function value, for a scalar and an array argument."""
+    import jax
+    import jax.numpy as jnp
+    import jax.scipy.special as jss
+    A = __import__("genjax.adev", fromlist=["x"])
+
+    @jax.custom_jvp
+    def cj(x):
+        return jnp.sin(x) * x
+
+    @cj.defjvp
+    def cj_rule(primals, tangents):          # a deliberately NON-standard rule: ADEV must use it, exactly as jax.jvp does
+        (x,), (t,) = primals, tangents
+        return cj(x), 3.0 * t
+
+    @jax.custom_vjp
+    def cv(x):
+        return jnp.sin(x) * x
+
+    cv.defvjp(lambda x: (jnp.sin(x) * x, x), lambda r, g: (g * 5.0,))
+
+    fs = [("jax.nn.relu", lambda x: jnp.sum(jax.nn.relu(x) * x), True),
+          ("jax.nn.relu6", lambda x: jnp.sum(jax.nn.relu6(x * 3.0)), True),
+          ("jax.nn.softplus", lambda x: jnp.sum(jax.nn.softplus(x)), True),
+          ("jax.nn.softmax", lambda x: jnp.sum(jax.nn.softmax(jnp.atleast_1d(x) * jnp.arange(1.0, 4.0)[: jnp.size(x)]) * x), True),
+          ("logsumexp", lambda x: jss.logsumexp(jnp.atleast_1d(x) * 2.0), True),
+          ("jax.checkpoint", lambda x: jnp.sum(jax.checkpoint(lambda y: jnp.sin(y) * y)(x)), True),
+          ("custom_jvp with its own rule", lambda x: jnp.sum(cj(x) * 2.0), True),
+          ("relu inside lax.cond", lambda x: jax.lax.cond(jnp.sum(x) > 0.0, lambda: jnp.sum(jax.nn.relu(x)), lambda: jnp.sum(x * x)), True),
+          ("relu inside scan", lambda x: jax.lax.scan(lambda c, t: (c + jnp.sum(jax.nn.relu(x * t)), c), 0.0, jnp.arange(1.0, 3.0))[0], True),
+          ("custom_vjp with its own rule", lambda x: jnp.sum(cv(x) * 2.0), False)]
+    for xname, x, t in (("scalar", jnp.float32(0.7), jnp.float32(1.0)), ("scalar<0", jnp.float32(-0.4), jnp.float32(2.0)),
+                        ("vector", jnp.array([0.5, -1.25, 2.0], jnp.float32), jnp.array([1.0, 0.5, -2.0], jnp.float32))):
+        for name, f, forward in fs:
+            case = {"kind": "library-function", "function": name, "argument": xname}
+            try:
+                e = A.expectation(f)
+                if forward:
+                    want_p, want_t = jax.jvp(f, (x,), (t,))
+                    d = e.jvp_estimate(A.Dual(x, t))
+                    if not (np.allclose(d.primal, want_p, rtol=1e-5, atol=1e-6) and np.allclose(d.tangent, want_t, rtol=1e-5, atol=1e-6)):
+                        ctx.property_failure(None, f"{name} ({xname}): jvp_estimate gives ({np.asarray(d.primal).tolist()}, {np.asarray(d.tangent).tolist()}), "
+                                             f"jax.jvp ({np.asarray(want_p).tolist()}, {np.asarray(want_t).tolist()})", case)
+                    v = e.estimate(x)
+                    if not np.allclose(v, f(x), rtol=1e-5, atol=1e-6):
+                        ctx.property_failure(None, f"{name} ({xname}): estimate gives {np.asarray(v).tolist()}, the function value is {np.asarray(f(x)).tolist()}", case)
+                g, wg = e.grad_estimate(x), jax.grad(f)(x)
+                if not np.allclose(g, wg, rtol=1e-5, atol=1e-6):
+                    ctx.property_failure(None, f"{name} ({xname}): grad_estimate gives {np.asarray(g).tolist()}, jax.grad {np.asarray(wg).tolist()}", case)
+            except Exception as ex:
+                impl.reset_handlers()
+                ctx.property_failure(None, f"{name} ({xname}): ADEV raises {type(ex).__name__} ({str(ex)[:110]}) on a deterministic function that JAX differentiates",
+                                     {**case, "error": type(ex).__name__})
+            ctx.case(sample=case if (name, xname) == ("jax.nn.relu", "vector") else None, nontrivial_key=("library-function", name, xname))
+            ctx.count("library-function")
+
+
 def run(ctx, audit):
     G = impl.load()
     rng = ctx.rng
     interpreter_limits(G, ctx)
+    library_functions(G, ctx)
     python_scalar_arguments(G, ctx)
     for name, f, shapes in corpus():
         for rep in range(3 if ctx.thorough else 1):
